@@ -220,7 +220,8 @@ func (rp *Replayer) runBatch(pkgRel string, items []*replayItem) {
 	}
 	listPath := filepath.Join(dir, "list.txt")
 	os.WriteFile(listPath, []byte(list.String()), 0o644)
-	cmd := exec.Command("go", "test", "-v", "-vet=off", "-count=1", "-timeout", "300s", "-overlay", ovPath, "-run", "^TestVerifReplay$", "./"+pkgRel)
+	// address-space limit: a counterexample may be "allocates an input-controlled amount of memory"
+	cmd := exec.Command("bash", "-c", "ulimit -v 16000000; exec go test -v -vet=off -count=1 -timeout 300s -overlay "+ovPath+" -run '^TestVerifReplay$' ./"+pkgRel)
 	cmd.Dir = rp.repo
 	cmd.Env = append(os.Environ(), "GOFLAGS=-mod=mod", "GOPROXY=off", "GOSUMDB=off", "GOTOOLCHAIN=local", "VERIF_REPLAY_LIST="+listPath)
 	var out bytes.Buffer
